@@ -34,6 +34,27 @@ def main():
     sys.exit(3)
 
 
+def _raised_by_code_under_check(e):
+    """Walks the traceback from the innermost frame outwards, skipping library frames: True when the first frame that belongs
+    either to the tree under check or to /verif belongs to the tree under check."""
+    from pyvc import frontend
+
+    files = []
+    tb = e.__traceback__
+    while tb is not None:
+        files.append(tb.tb_frame.f_code.co_filename)
+        tb = tb.tb_next
+    root = os.path.realpath(frontend.REPO) + os.sep
+    mine = os.path.dirname(os.path.dirname(os.path.realpath(__file__))) + os.sep
+    for f in reversed(files):
+        f = os.path.realpath(f)
+        if f.startswith(root):
+            return True
+        if f.startswith(mine) and not f.startswith(os.path.join(mine, ".venv") + os.sep):
+            return False
+    return False
+
+
 def check(pid, tier):
     t0 = time.time()
     seed = int(os.environ.get("VERIF_SEED", "0") or 0)
@@ -56,7 +77,19 @@ def check(pid, tier):
             ulist = runner.run_deductive(rep, P["modules"], only=P.get("only_units"))
             runner.vacuity_checks(rep, ulist)
         for hook in P.get("extra", []):
-            hook(rep, tier, seed)
+            try:
+                hook(rep, tier, seed)
+            except Exception as e:
+                if not _raised_by_code_under_check(e):
+                    raise
+                # a bounded hook completes on every input of its stated domain on the unchanged tree and documents the exceptions it
+                # expects; an exception that escapes from the code under check itself is therefore a changed behaviour on that domain
+                tb = traceback.format_exc()
+                rep.violation("%s-%s-raises-%s" % (pid, getattr(hook, "__module__", "hook").split(".")[-1], type(e).__name__), {
+                    "what": "the code under check raised %s (not an exception this bounded check documents as expected) while %s.%s "
+                            "evaluated the contract on its stated domain" % (type(e).__name__, getattr(hook, "__module__", "?"), getattr(hook, "__name__", "?")),
+                    "inputs": {"hook": "%s.%s" % (getattr(hook, "__module__", "?"), getattr(hook, "__name__", "?")), "tier": tier, "seed": seed},
+                    "exception": repr(e), "traceback": tb[-4000:]})
         cmd = "./verif check %s --tier %s  (pyvc: ast of /repo source -> VCs -> z3 5.1 in a %d-process pool, cvc5 on unknown)" % (pid, tier, os.cpu_count() or 1)
         return runner.finish(rep, ulist, P.get("level", "proof"), P.get("coverage", {}), P.get("assumptions", []), cmd, t0)
     except Exception as e:
